@@ -533,6 +533,11 @@ namespace embedded_pairing::core {
         }
 
         void read_big_endian(const uint8_t* buffer) {
+            if (buffer == &this->bytes[0]) {
+                /* Converting in place: the loop below would read bytes it has already overwritten. */
+                this->reverse_endianness();
+                return;
+            }
             for (int i = 0; i != byte_length; i++) {
                 this->bytes[i] = buffer[byte_length - i - 1];
             }
